@@ -520,6 +520,24 @@ fn run_case_inner(rng: &mut Rng, sc: &Scenario, cfg: &RunCfg, model: &mut Model,
                     replay_of(&ops, &outcomes, sidx, sc, J::obj(vec![("op", J::s(op.show()))])));
             }
         }
+        // (C07) a file carrying the read-only attribute (whatever other attribute bits it carries) is never opened for writing
+        if let Op::OpenFile(d, n, m) = &op {
+            if *m != Mode::ReadOnly && out.is_ok() {
+                if let Some(gd) = gs.dirs.iter().find(|x| x.handle == *d) {
+                    let mut p = gd.path.clone();
+                    p.push(sfn(n));
+                    if let Some(rf) = gs.trees[gd.vol].file_at(&p) {
+                        rep.oracle_checks += 1;
+                        if rf.attr & 0x01 != 0 {
+                            local_violation = true;
+                            rep.violation("impl-vs-spec", "read-only-file-opened-for-writing", &format!("`{}` succeeded on a file whose attribute byte is {:#04x} (read-only bit set)", op.show(), rf.attr),
+                                replay_of(&ops, &outcomes, sidx, sc, J::obj(vec![("op", J::s(op.show())), ("attr", J::i(rf.attr as i128))])));
+                        }
+                        rep.count(&format!("open-for-writing:attr-{:#04x}", rf.attr));
+                    }
+                }
+            }
+        }
         // (C07 / C03) a file that is open cannot be opened again or deleted, whatever else is open on other volumes
         if out.is_ok() {
             if let Op::OpenFile(d, n, _) | Op::Delete(d, n) = &op {
